@@ -1,4 +1,5 @@
 import GqlModel.Conforms
+import GqlModel.TwoWorlds
 /-! A small concrete request (schema, document with fragments / aliases / a cyclic fragment / a variable-driven
 directive, world with failures) used by the non-vacuity `example`s of Props/C01, C04, C13, C20. Definitions only. -/
 namespace GqlModel.Exec.Ex
@@ -80,5 +81,63 @@ def obsData (r : Response) : Option (List (String × JVal)) :=
   | _ => none
 
 def obsKeys (r : Response) : List String := ((obsData r).getD []).map (·.1)
+
+/-! ## a second request for the two-world theorem: a list of objects with a non-null field -/
+
+def schemaTW : Schema :=
+  { types := [
+      .scalar "Int" .int "",
+      .object "Query" [] [
+        { name := "items", type := .list (.named "Item"), args := [] },
+        { name := "z", type := .named "Int", args := [] }] false "",
+      .object "Item" [] [
+        { name := "a", type := .nonNull (.named "Int"), args := [] },
+        { name := "b", type := .named "Int", args := [] }] false ""],
+    query := "Query", mutation := none, subscription := none, directives := [] }
+
+/-- `{ items { a b } z }` -/
+def docTW : Document :=
+  { defs := [.operation .query none [] [] (.mk [fld "items" (some [fld "a", fld "b"]), fld "z"] Loc.none) Loc.none],
+    loc := Loc.none }
+
+/-- `items` is a list of two `Item`s; the resolver `(object 2, field a)` fails -/
+def worldTW1 : World :=
+  { objects := [(1, { typeName := "Item", fields := [("a", .value (.int 1)), ("b", .value (.int 2))] }),
+                (2, { typeName := "Item", fields := [("a", .fail), ("b", .value (.int 3))] })],
+    rootFields := [("items", .value (.list [.ref 1, .ref 2])), ("z", .value (.int 5))],
+    isTypeOf := [], resolveType := [] }
+
+/-- the same world, except that `(object 2, field a)` returns 7 -/
+def worldTW2 : World :=
+  { worldTW1 with objects := [(1, { typeName := "Item", fields := [("a", .value (.int 1)), ("b", .value (.int 2))] }),
+                             (2, { typeName := "Item", fields := [("a", .value (.int 7)), ("b", .value (.int 3))] })] }
+
+/-- the position of the differing resolver: `items[1].a` (depth 3, inside a list) -/
+def pTW : Path := [.key "items", .idx 1, .key "a"]
+/-- its nearest nullable ancestor: the list item `items[1]` (the field `a` is non-null) -/
+def qTW : Path := [.key "items", .idx 1]
+
+/-- does the log entry invoke the resolver `(object id, field f)`? (`Touches`, as a Boolean) -/
+def touchesB (id : Nat) (f : String) (e : LogEntry) : Bool :=
+  (match e.source with | .ref i => i == id | _ => false) && e.fieldName == f
+
+/-- the paths at which a response's log invokes the resolver `(object id, field f)` -/
+def touchPaths (id : Nat) (f : String) (r : Response) : List String :=
+  match r with
+  | .result _ _ log _ => (log.filter (touchesB id f)).map (fun e => pathStr e.path)
+  | _ => ["<no result>"]
+
+def errsOutsideS (q : Path) (r : Response) : List String :=
+  match r with
+  | .result _ errs _ _ => (errsOutside q errs).map (fun e => pathStr e.1)
+  | _ => ["<no result>"]
+
+def logOutsideS (q : Path) (r : Response) : List String :=
+  match r with
+  | .result _ _ log _ => (logOutside q log).map (fun e => pathStr e.path)
+  | _ => ["<no result>"]
+
+def showAt (d : Option (List (String × JVal))) (r : Path) : Option String :=
+  (d.bind (fun fs => (JVal.obj fs).getAt r)).map fmtV
 
 end GqlModel.Exec.Ex
